@@ -464,6 +464,18 @@ def _status(EX, e: Optional[BaseException]) -> str:
 
 def run_case(cid: str, case: Dict[str, Any]) -> List[str]:
     """case: U [types], ops [(kind, [types])]"""
+    from .read_corr import cpu_guard, Hang, HANGS, HANG_BREAKER, note_hang
+    if HANGS[0] >= HANG_BREAKER:
+        raise Hang("skipped: this process has already seen %d cases that did not return" % HANGS[0])
+    try:
+        with cpu_guard(4.0):    # an endless loop in the code under test ends the case (`Hang`), not the harness
+            return _run_case(cid, case)
+    except Hang:
+        note_hang()
+        raise
+
+
+def _run_case(cid: str, case: Dict[str, Any]) -> List[str]:
     from pyrtma import exceptions as EX
     logging.getLogger().setLevel(logging.CRITICAL + 10)
     pr = Pair()
@@ -472,11 +484,13 @@ def run_case(cid: str, case: Dict[str, Any]) -> List[str]:
     lines = [f"CASE {cid} {pr.w.cd.ALL_MESSAGE_TYPES}", "U " + " ".join(map(str, U))]
     with warnings.catch_warnings():
         warnings.simplefilter("ignore")
-        for kind, args in case["ops"]:
+        for opno, (kind, args) in enumerate(case["ops"]):
             lines.append(f"OP {kind} " + " ".join(map(str, args)))
             mark = pr.mark()
+            # the API takes any iterable of ids: every second call gets a tuple instead of a list (same order, duplicates kept)
+            args = tuple(args) if opno % 2 else list(args)
             if kind in ("subCtx", "pauseCtx"):
-                cm = (c.subscription_context if kind == "subCtx" else c.paused_subscription_context)(list(args))
+                cm = (c.subscription_context if kind == "subCtx" else c.paused_subscription_context)(args)
                 try:
                     cm.__enter__()
                     err = None
@@ -494,13 +508,13 @@ def run_case(cid: str, case: Dict[str, Any]) -> List[str]:
                 continue
             try:
                 if kind == "subscribe":
-                    c.subscribe(list(args))
+                    c.subscribe(args)
                 elif kind == "unsubscribe":
-                    c.unsubscribe(list(args))
+                    c.unsubscribe(args)
                 elif kind == "pause":
-                    c.pause_subscription(list(args))
+                    c.pause_subscription(args)
                 elif kind == "resume":
-                    c.resume_subscription(list(args))
+                    c.resume_subscription(args)
                 elif kind == "unsubAll":
                     c.unsubscribe_from_all()
                 elif kind == "pauseAll":
@@ -835,6 +849,18 @@ SUB_CALL = {"subscribe": "subscribe", "unsubscribe": "unsubscribe", "pause": "pa
 
 def run_life_case(cid: str, case: Dict[str, Any]) -> List[str]:
     """case: created, others [(req id, allow)], burn, U [types], ops [(kind, args...)]"""
+    from .read_corr import cpu_guard, Hang, HANGS, HANG_BREAKER, note_hang
+    if HANGS[0] >= HANG_BREAKER:
+        raise Hang("skipped: this process has already seen %d cases that did not return" % HANGS[0])
+    try:
+        with cpu_guard(4.0):
+            return _run_life_case(cid, case)
+    except Hang:
+        note_hang()
+        raise
+
+
+def _run_life_case(cid: str, case: Dict[str, Any]) -> List[str]:
     from pyrtma import exceptions as EX
     logging.getLogger().setLevel(logging.CRITICAL + 10)
     lp = LifePair(case["created"], case.get("others", ()), case.get("burn", 0))
